@@ -100,4 +100,17 @@ def c03(tier):
                 note="datastorage.rs + memoryadapter.rs from MIR; serde_json serialiser/parser modelled")
 
 
-PROPS = {"C03": c03, "C06": c06, "C16": c16, "C19": c19, "C05": c05, "C15": c15}
+S2 = {"hash_order": "fixed", "par_order": "fixed"}
+
+
+def c08(tier):
+    jobs = [Job("h_c08::commit_with_array_conflict", (6, 0), dict(S2), budget_s=3000, validate=30, native_timeout=10)]
+    if tier != "quick":
+        jobs.append(Job("h_c08::commit_with_array_conflict", (10, 0), dict(S2), budget_s=6000, validate=30, native_timeout=10))
+    return dict(jobs=jobs, bounds={"scenario": "base document, two replicas, one concurrent edit each (documents chosen among 6 / 10 element orders), exchange, further edit, commit, then stage / snapshot / unstage / refresh / reload / getters"},
+                assumptions=["single client thread; worker-pool sizes and real rayon interleavings are not modelled (sequentialised par_iter)",
+                             "a lock re-acquired by the thread that holds it is reported as non-termination (std Mutex/RwLock are not re-entrant)"],
+                note="melda.rs operations from MIR with the lock model")
+
+
+PROPS = {"C08": c08, "C03": c03, "C06": c06, "C16": c16, "C19": c19, "C05": c05, "C15": c15}
